@@ -196,23 +196,41 @@ def method_call(ex, f, recv, node, kw, st, sink):
             out += method_call(ex, f, v, node, kw, s2, sink)
         return out
     if isinstance(t, ty.RefT):
-        c = ex.reg.find_method(t.cls, name)
-        if c is None:
-            # dynamic dispatch: case split over the concrete subclasses that define the method
-            subs = [sc for sc in ex.reg.subclasses(t.cls) if not ex.reg.records[sc].abstract and ex.reg.find_method(sc, name) is not None]
-            concrete = [sc for sc in ex.reg.subclasses(t.cls) if not ex.reg.records[sc].abstract]
-            if not subs or set(subs) != set(concrete):
+        # dynamic dispatch: group the concrete classes the receiver may have by the contract their MRO resolves to
+        concrete = [sc for sc in ex.reg.subclasses(t.cls) if not ex.reg.records[sc].abstract]
+        groups = {}
+        base_c = ex.reg.find_method(t.cls, name)
+        if base_c is not None and base_c.abstract:
+            # an abstract method contract speaks for every implementation (behavioural subtyping:
+            # the implementations under contract are verified separately)
+            concrete = []
+            groups = {base_c.name: (base_c, [])}
+        for sc in concrete:
+            cc = ex.reg.find_method(sc, name)
+            if cc is None:
+                raise Unsupported("no contract for %s.%s (needed for receiver class %s, line %d)" % (sc, name, sc, node.lineno))
+            groups.setdefault(cc.name, (cc, []))[1].append(sc)
+        if not groups:
+            c = ex.reg.find_method(t.cls, name)
+            if c is None:
                 raise Unsupported("no contract for %s.%s (line %d)" % (t.cls, name, node.lineno))
+            groups = {c.name: (c, [])}
+        if len(groups) > 1:
             out = []
-            for sc in subs:
-                cond = ty.typeof(recv.e) == ex.reg.records[sc].cid
+            for cname_, (cc, scs) in groups.items():
+                cond = z3.Or(*[ty.typeof(recv.e) == ex.reg.records[sc].cid for sc in scs])
                 if not ex.feasible(st, cond):
                     continue
                 s2 = st.copy()
                 s2.assume(cond)
-                s2.trace.append("L%d:dispatch %s" % (node.lineno, sc))
-                out += method_call(ex, f, SV(ty.RefT(sc), recv.e), node, kw, s2, sink)
+                s2.trace.append("L%d:dispatch %s" % (node.lineno, "|".join(scs)))
+                narrowed = SV(ty.RefT(scs[0]) if len(scs) == 1 else t, recv.e)
+                for s3, vals in ex.ev_list(list(node.args) + list(kw.values()), s2, sink):
+                    pos = [narrowed] + vals[:len(node.args)]
+                    kws = dict(zip(kw.keys(), vals[len(node.args):]))
+                    out += ex.call_contract(cc, pos, kws, s3, sink, node)
             return out
+        c = list(groups.values())[0][0]
         out = []
         for s, vals in ex.ev_list(list(node.args) + list(kw.values()), st, sink):
             pos = [recv] + vals[:len(node.args)]
